@@ -43,6 +43,10 @@ CLAIMED = {
    text="Per-function obligations of the call path: a mailbox hands only Call and Post messages to its object (other kinds never run a method); every generated stub method of the Object interface under contract invokes the implementation at most once, answers a Call with exactly one of reply/error, answers a decode failure with an error without calling the implementation, and sends nothing for a Post; channel.SendReply/SendError send a message carrying the request's id, service, object and action with type Reply/Error; client message ids are allocated under the mutex and advance by 2; the reply filter of client.Call selects exactly (service, object, action, id) and removes itself; client.Call registers the reply handler before sending (mid-body assertion); the server-side connection filter passes only Call/Post/Capability/Cancel; Router.Receive answers an unknown service with one error.",
    note="Composition over all interleavings (one mailbox goroutine per object, monitor rule for the handler table and the id counter) is argued in DESIGN.md, not machine-checked. Stub methods covered: 11 of bus/object_stub_gen.go (Stats with its map marshalling, and the stubs of the other generated files, are not under contract). Implementation methods are abstract with a ghost call counter and are assumed not to answer the request themselves. Ids distinct only for fewer than 2^31 calls per client.",
    technique="contract-based deductive verification with ghost invocation/reply counters, SMT", ref="7 C04"),
+ "C13": dict(level="proof",
+   text="Sequential contracts and monitor invariants of the signal machinery: client.State is a reference count (result = previous + add with machine wrap, entry deleted at 0, other keys untouched); signalHandler.addSignalUser refuses a duplicate user id before touching anything and otherwise appends exactly one entry carrying the request's ids; removeSignalUser removes one entry or changes nothing; UpdateSignal collects the entries whose signal id matches under the read lock into a private slice and sends one Event (type 5) carrying the subscriber's own message id, this object's service/object id and the signal id to each of them and to nobody else (assertion at the send); RegisterEvent answers every request exactly once; lock-state and guard obligations on every access to the subscriber table.",
+   note="Not decided: interleavings of emit/unsubscribe beyond the monitor rule, queue-capacity effects, the client-side fan-out goroutine (client.Subscribe) and proxy.SubscribeID's 0<->1 logic (only client.State is under contract). Channel methods are abstract with ghost counters / last-message record; 'the freshly allocated local slice is not the shared table' is an explicit assumption (assume_after).",
+   technique="contract-based deductive verification with monitor invariants and ghost message records, SMT", ref="7 C13"),
 }
 
 NOT_APPLICABLE = {
